@@ -23,7 +23,7 @@ ASSUMPTIONS = ['string / error lines keep their remainder literally (documented)
                'lines are outside the listed freedoms']
 
 HOSTILE = ['# plain', '#', '# (paren', '# ) , = :', "# it's", '# string x', '# error boom', '#%hi(', '# L0: addi x1, x1, 1', '# "quoted" \'q\'',
-           '#\ttab', '# 0x10(x2)', "# ','", '# \\n']
+           '#\ttab', '# 0x10(x2)', "# ','", '# \\n', '## banner ##', '# item #1', '#### section', '# a # b', "# '#' is 35"]
 BASE_OFFSET = {'jalr', 'lb', 'lh', 'lw', 'lbu', 'lhu', 'sb', 'sh', 'sw', 'c.lw', 'c.sw'}
 ABI = O.ABI
 
